@@ -11,6 +11,8 @@ NOTE = ("trusted: go/ssa lowering (x/tools v0.29.0), gosym instruction semantics
 CLAIMED = {
  "C20": ("3 (C20)", "All prefixes of 2 bytes x all texts of <= 4 (thorough 6) bytes x all 3-chunkings x all short-write points are decided by the solver against a line model of the property; byte values are symbolic so each path covers a class of 256^k texts.", ""),
  "C15": ("3 (C15)", "Order/equality vs exact rational arithmetic for every pair of 64-bit numbers at every (fd1,fd2) in [0,18]^2, Int() exactness, constructors, print/parse round trip at every fd and digit count, and literal parsing for all digit strings of the stated shapes: full 64-bit domain, decided in linear integer arithmetic with explicit wrap-around.", "strconv.FormatUint is modelled by a digit-chain intrinsic"),
+ "C14": ("3 (C14)", "Every member sequence of <= 3 (thorough 4) members - names over all equality patterns, explicit/implicit mix, explicit values ranging over all of int64 - is run through the real Set/SetNext and compared with the RFC 7950 9.6.4.2/9.7.4.2 rule stated over exact integers; name/value views checked to be inverse.", ""),
+ "C10": ("3 (C10)", "parseChildRanges (split, min/max substitution, order test, sort, coalesce, subset test, validation) is executed on every restriction skeleton of <= 2 (thorough 3) parts against an arbitrary valid parent set, with all endpoints symbolic over the full 64-bit domain and a universally quantified member x: result set == written set, sorted/disjoint/coalesced, subset of the parent, and acceptance/rejection exactly as the property states; integers/lengths and decimal64 at every fraction-digits.", "number parsers stubbed inside the harness (contract decided by C15); Number.Less summarised"),
 }
 
 NOT_APPLICABLE = {
